@@ -18,6 +18,7 @@ E == Rec[l]
 Init == l = 1 /\ j = 0 /\ win = WinInit /\ f32 = Fnv32Init
 AllEq(obj, v) == \A f \in DOMAIN obj : obj[f] = v
 EvHp == /\ Ev("hp")
+        /\ Expect(E.panics = 0, <<l, "hp-panic">>)
         /\ IF Len(E.d) = 0
            THEN /\ Expect(AllEq(E.rforms, RollDef(WinInit)) /\ AllEq(E.fforms, Fnv32Low6(Fnv32Init)), <<l, "hp-empty">>)
                 /\ l' = l + 1 /\ UNCHANGED <<j, win, f32>>
